@@ -184,6 +184,21 @@ Proof.
   exact (fun A up => last_level_not_saved up omen_optimizer_max_length omen_first_object_extra C15_source_first_object_range).
 Qed.
 
+(* "later quit/resume cycles do not replay that remainder again", inside the
+   combined model: the resumed session above ran the restored level to its end
+   (omen_exit false), so it carries on the save config
+   snd (sess_restore cleared cfg false); whatever probability m' a later quit
+   saves with it, the next run(load_session=True) restores no OMEN level.  Needs
+   the R7 repair (omen_number_cleared = true), like C15_no_replay. *)
+Theorem C15_later_resume_no_replay : omen_number_cleared = true ->
+  forall (A : palg) strict pop (g : sgram A) (f : session_file A) (m' : P A) calls c n r,
+  resumed_session omen_optimizer_max_length omen_first_object_extra strict omen_number_cleared pop g
+                  (mk_sfile m' (snd (sess_restore omen_number_cleared (sf_omen f) false))) calls c n = Some r ->
+  rr_rest r = [].
+Proof.
+  intros ->. exact (fun A strict => later_resume_no_replay omen_optimizer_max_length omen_first_object_extra strict true).
+Qed.
+
 (* the queue the correspondence runs the model with (it follows the order in
    which the implementation popped) meets the heap contract for every order,
    so the theorems above apply to every run the correspondence makes *)
@@ -218,6 +233,25 @@ Theorem C15_not_tied_witness :
         [[(1, 1)]; [(0, 1)]; [(2, 0)]]).
 Proof. exact (ex_not_tied_sessions omen_first_object_extra C15_source_first_object_range). Qed.
 
+(* What is now proved / what remains.
+   PROVED over one model (MarkovSession.v = Next.v run + Expand.v expansion +
+   Omen.v generator and save/load + the session file): C15_then_rest,
+   C15_tied_level_repeats (both for every ruleset, level, cut j, any two queues
+   meeting the heap contract, any sound memo tables), C15_last_level_not_saved
+   (R18), C15_later_resume_no_replay; the correspondence shards "session:" run
+   exactly these definitions against the real CrackingSession on every recorded
+   cut.
+   REMAINS outside the theorems: (1) a SECOND quit seen inside the restored
+   remainder is composed only at the level of the session file
+   (C15_requit_inside_restores_new) and of the generator (C15_continuation holds
+   for the state after any number of guesses), not as one multi-cycle theorem
+   over the combined model; (2) --limit together with --load (restore_omen
+   ignores the limit) is not modelled; (3) that a non-Markov pre-terminal's
+   output equals the product of its groups is C04's theorem about the same
+   Expand.expand, not restated here; (4) configparser / pickle round trips and
+   the heap's choice inside a group of equal probability are trusted / quantified
+   over (every pop meeting pop_ok_okb). *)
+
 Print Assumptions C15_continuation.
 Print Assumptions C15_state_roundtrip.
 Print Assumptions C15_refuted_stale.
@@ -227,3 +261,4 @@ Print Assumptions C15_last_level_not_saved.
 Print Assumptions C15_follow_pop_ok.
 Print Assumptions C15_session_hypotheses_satisfiable.
 Print Assumptions C15_tied_level_witness.
+Print Assumptions C15_later_resume_no_replay.
